@@ -1,5 +1,6 @@
 """C06 — degree elevation is exact; degree reduction is its inverse or is refused."""
 from common import *  # noqa: F401,F403
+import units
 
 RULE = ("random curves (Bezier, multi-span, repeated knots, rational; degree 0..3, t in 1..3): degree_increase(t) and the degree setter; "
         "elevate-then-reduce round trips; reduction of generic curves (refused with the default tolerance, forced with tolerance=None); "
@@ -17,6 +18,7 @@ def run_case(ctx, case):
     p, n, knots = kv_info(U)
     rec.case(case, nontrivial=nontrivial_kv(U))
     rec.count("mode", mode)
+    units.tie_elevbez(rec, drv, case, p, t)            # the Bezier elevation matrix of the Bernstein theorems
     rec.count("shape", "bezier" if len(knots) == 2 else "multispan")
     rec.count("weights", "rational" if W is not None else "polynomial")
     curve = make_curve(U, P, W)
